@@ -89,6 +89,7 @@ struct Scenario {
   max_vt_ns: u64,
   spurious: bool,
   want_choices: bool,
+  want_edges: bool,
   writer_pref: bool,
 }
 
@@ -351,6 +352,7 @@ fn parse_scenario(x: &Sx) -> Scenario {
     max_vt_ns: max_vt_ms.saturating_mul(NS_PER_MS),
     spurious: flag("spurious"),
     want_choices: flag("want-choices"),
+    want_edges: flag("want-edges"),
     writer_pref: flag("writer-pref"),
   }
 }
@@ -743,6 +745,17 @@ fn observation(sc: &Scenario, seed: u64, out: &Outcome, data: RecData) -> String
   if out.replay_diverged {
     v.push(f("replay-diverged", atom(1)));
   }
+  if sc.want_edges {
+    let clean = |x: &str| Sx::A(x.replace(' ', "@"));
+    v.push(tagged("edges", out.lock_edges.iter().map(|(a, ai, b, bi)| Sx::L(vec![clean(a), atom(*ai), clean(b), atom(*bi)])).collect()));
+  }
+  match &out.status {
+    Status::Deadlock(d) | Status::SelfDeadlock(d) => {
+      let t: String = d.chars().take(900).map(|c| match c { ' ' | '\n' | '\t' => '_', '(' => '[', ')' => ']', '"' | ';' => '\'', c => c }).collect();
+      v.push(f("detail", Sx::A(t)));
+    }
+    _ => {}
+  }
   v.push(tagged("ev", data.ev));
   if std::env::var_os("RXCONC_DEBUG").is_some() {
     for (tid, msg) in out.panics.iter() {
@@ -770,6 +783,7 @@ fn run_scenario(x: &Sx, emit: &mut dyn FnMut(&str)) -> u64 {
     replay,
     spurious_wakeups: sc.spurious,
     trace: false,
+    lockdep: sc.want_edges,
   };
   let mut n_obs = 0u64;
   let mut one = |cfg: Config, emit: &mut dyn FnMut(&str)| -> Outcome {
